@@ -32,6 +32,22 @@ CHECKS = {
                 text='Heap obligations on the symbolic runs of all three checkers (with/without F, text/object): z3 proves every bit of the caller\'s structure (successor sets, label sets incl. new atoms, S0, object identities) equals its pre-call snapshot; result shares no set with K; formula prints unchanged; call / call-on-other-structure-with-same-formula / call returns equal vectors; call / mutate result / call returns equal vectors.',
                 note='bounded: n<=3; histories of length 3; writes to module globals or class attributes would make the run inconclusive rather than be modelled',
                 tech=SOLVER + ' (heap snapshot equality)'),
+    'C08': dict(cat='model_checking', ref='4/C08',
+                text='Solver part: the acceptance behaviour of the real constructors is a finite local table (operator x operand classes) regenerated on every run by executing them on class representatives; a symbolic complete binary operator tree over the union alphabet (depth<=5, 63 positions) is evaluated once with that table (buildable / castable into the language) and once with the documented grammar (state / path / A-rooted / not a formula); z3 searches for a tree where they differ, for each of PL, CTL, LTL, CTL*. Exploration part (natively): ~5,800 trees built with the real constructors, ~7,000 casts between the four languages (same shape, nodes of the target module, TypeError exactly when undocumented), 13 modelcheck guard cases.',
+                note='arity-respecting trees only: wrong-arity constructions are OPEN known finding D11; the locality assumption behind the table is what the native exploration validates',
+                tech='decision table extracted from the live constructors + SAT (z3 5.1) over all operator trees of bounded depth; native exploration for casts and guards'),
+    'C09': dict(cat='model_checking', ref='4/C09',
+                text='Solver part: the grammar of printed forms is extracted on every run from the real __str__ methods; over a symbolic lexeme string (<=10 lexemes quick, 12 thorough) a CYK table with explicit justifications is built and z3 searches for a string with two different derivations (two trees printing identically), and for a printed form (<=4/5 lexemes) that the LALR automaton extracted from the live parser rejects. Exploration part (natively): Parser()(str(f)) structurally equal to f on ~4,800 enumerated formulas of PL/LTL/CTL*/CTL (cast to CTL*) over a lexer-stressing atom pool.',
+                note='printed length bound, not depth bound; atoms identifier-style and not reserved; tree equality of the round trip is enumeration',
+                tech='grammar extracted from the live printers + SAT (z3 5.1) bounded ambiguity / inclusion; native round trips'),
+    'C10': dict(cat='model_checking', ref='4/C10',
+                text='The LALR table and contextual-lexer decisions are extracted from the live Parser() of each logic on every run; the parser loop on a symbolic lexeme string (<=4 lexemes quick, 5 thorough; 14-21 lexemes incl. all operator spellings, identifiers, an escaped string) is a step-indexed transition system with explicit stack; the documented grammar is a CYK table over the same string; z3 proves accepts(w) -> documented(w), that every run terminates without stack overflow; solver-enumerated accepted and rejected strings are replayed through the real parser (formula of exactly that logic / UnexpectedToken|UnexpectedCharacters with position inside the input); 160 cross-fed strings natively.',
+                note='token level only: character-level lexing and strings longer than L lexemes are outside; Lark is never interpreted, its table is taken as the definition of the real parser and validated by the replays',
+                tech='parser automaton extracted from the live objects + SAT (z3 5.1) bounded language inclusion against a CYK encoding of the documented grammar'),
+    'C11': dict(cat='model_checking', ref='4/C11',
+                text='Formula.__eq__/__hash__ are defined through str(), so "f == g iff same tree" is injectivity of printing: decided by z3 on the printed-form grammar extracted from the real __str__ methods (<=10/12 lexemes, shared machinery with C09). Symmetry, transitivity, hash/set/dict behaviour, clone independence and Bool-vs-bool in both directions are explored natively over ~270k pairs and 12k triples; CrossHair checks three __eq__/__hash__ conditions with symbolic atom names.',
+                note='pairs/triples are enumeration; atoms not reserved words; CrossHair conditions that are not "confirmed over all paths" are reported as such',
+                tech='SAT (z3 5.1) bounded unambiguity of the extracted printed-form grammar; CrossHair (symbolic str) for __eq__/__hash__; native pair/triple walk'),
     'C12': dict(cat='model_checking', ref='4/C12',
                 text='compute_SCCs is executed symbolically from its source on a graph whose edge bits are unknowns: one merged run per node order covers all 2^(n*n) digraphs (n<=4 quick; n=5 with 9 forked bits and all 24 orders at n=4 thorough). The solver proves partition + mutual-reachability equivalence against a Warshall oracle circuit, absence of exceptions and complete loop unrolling; sat models are replayed natively.',
                 note='bounded: n<=4 (5 thorough); one global iteration order per run; evaluator and simplifier trusted but audited (rewrite lemmas re-proved, n=2 raw run, translator validation vs native on 150 random graphs)',
